@@ -36,7 +36,7 @@ def run(tier, seed, replay=None):
     ck.assumptions = ['every type is inhabited (H_inhabited); patterns are well typed (checked per case by pat_okb)']
     check_props(ck, 'theories/C07/Props.v')
 
-    nprog = 600 if tier == 'quick' else 8000
+    nprog = 600 if tier == 'quick' else 6000
     only = None
     if replay:
         import json
@@ -125,7 +125,7 @@ def run(tier, seed, replay=None):
                 elif not inst:
                     ck.property_failure('reported counterexample `%s` denotes no value' % cex_text, inp)
     # ---- layer B: model vs implementation verdicts
-    nshard = 16
+    nshard = max(16, (len(allcases) + 399) // 400)     # at most ~400 cases per coqc run
     jobs = []
     for si in range(nshard):
         part = allcases[si::nshard]
